@@ -774,7 +774,7 @@ func (i *interpreter) typeAssert(instr *ssa.TypeAssert, itf iface) value {
 }
 
 // appendCells implements append for slices, logging in-place writes.
-func (i *interpreter) appendCells(dst []value, src []value) []value {
+func (i *interpreter) appendCells(dst []value, src []value, elemT types.Type) []value {
 	if len(src) == 0 {
 		return dst
 	}
@@ -800,6 +800,15 @@ func (i *interpreter) appendCells(dst []value, src []value) []value {
 	res := make([]value, n, nc)
 	copy(res, dst)
 	copy(res[len(dst):], src)
+	// spare capacity is zeroed memory in Go (code may reslice into it)
+	spare := res[n:nc]
+	for k := range spare {
+		if elemT != nil {
+			spare[k] = zero(elemT)
+		} else {
+			spare[k] = uint8(0)
+		}
+	}
 	return res
 }
 
@@ -825,7 +834,7 @@ func (fr *frame) callBuiltin(callpos token.Pos, fn *ssa.Builtin, args []value, c
 		if len(dst)+len(src) > cap(dst) {
 			fr.chargeAlloc(int64(len(dst)+len(src)), elemSizeOfSlice(fn.Type().(*types.Signature).Params().At(0).Type()))
 		}
-		res := i.appendCells(dst, src)
+		res := i.appendCells(dst, src, sliceElem(fn.Type().(*types.Signature).Params().At(0).Type()))
 		// zero-valued elements appended from a typed slice keep their values (no copy needed: values immutable
 		// except aggregates which must be copied)
 		if et := sliceElem(fn.Type().(*types.Signature).Params().At(0).Type()); et != nil && isAggregate(et) {
